@@ -17,6 +17,7 @@ import (
 	"strconv"
 	"time"
 
+	"git.metabarcoding.org/obitools/obitools4/obitools4/pkg/obiiter"
 	"git.metabarcoding.org/obitools/obitools4/obitools4/pkg/obiseq"
 	"git.metabarcoding.org/obitools/obitools4/obitools4/pkg/obitools/obiclean"
 )
@@ -36,6 +37,11 @@ type c13case struct {
 	Cli     bool     `json:"cli"`
 	Head    bool     `json:"head"`
 	Procs   int      `json:"procs"`
+	// round 2: the data set reaches CLIOBIClean as batches of Batch records that ARRIVE in each of
+	// the orders listed in Arrivals (permutations of the batch numbers; every batch keeps its order
+	// number) — what a parallel reader stage delivers from run to run
+	Batch    int     `json:"batch"`
+	Arrivals [][]int `json:"arrivals"`
 }
 
 type c13annot struct {
@@ -48,12 +54,17 @@ type c13annot struct {
 	Internal  int               `json:"internalcount"`
 	Singleton int               `json:"singletoncount"`
 	Sample    int               `json:"samplecount"`
+	// the exported getters of package obiclean on the same sequence (cli path only; -2: panicked)
+	Getters []int `json:"getters,omitempty"`
 }
 
 type c13result struct {
 	Graph map[string][]obiclean.VerifNode `json:"graph,omitempty"`
 	Annot []c13annot                      `json:"annot,omitempty"`
 	Panic string                          `json:"panic,omitempty"`
+	// cli path: the ids in the order CLIOBIClean delivers the sequences (= the order of the loaded data set);
+	// not part of the compared result (the property does not speak about the output order): reported per run
+	order []string
 }
 
 type c13run struct {
@@ -61,6 +72,8 @@ type c13run struct {
 	Workers int    `json:"w"`
 	Rep     int    `json:"rep"`
 	Result  int    `json:"r"` // index in Distinct
+	// arrival-history runs: the ids in output order (model: Load = batches sorted by order number)
+	Order []string `json:"order,omitempty"`
 }
 
 type c13obs struct {
@@ -96,7 +109,38 @@ func c13toInt(v interface{}) int {
 	return -1
 }
 
-func c13annots(seqs obiseq.BioSequenceSlice) []c13annot {
+func c13getter(f func(*obiseq.BioSequence) int, s *obiseq.BioSequence) (v int) {
+	defer func() {
+		if r := recover(); r != nil {
+			v = -2
+		}
+	}()
+	return f(s)
+}
+
+// c13iter delivers db as batches of bsize records, batch k carrying order number k, in the given arrival order
+func c13iter(db obiseq.BioSequenceSlice, bsize int, arrival []int) obiiter.IBioSequence {
+	it := obiiter.MakeIBioSequence()
+	it.Add(1)
+	go func() { it.WaitAndClose() }()
+	go func() {
+		for _, k := range arrival {
+			lo := k * bsize
+			if k < 0 || lo >= len(db) {
+				continue
+			}
+			hi := lo + bsize
+			if hi > len(db) {
+				hi = len(db)
+			}
+			it.Push(obiiter.MakeBioSequenceBatch("verif", k, db[lo:hi]))
+		}
+		it.Done()
+	}()
+	return it
+}
+
+func c13annots(seqs obiseq.BioSequenceSlice, getters ...bool) []c13annot {
 	res := make([]c13annot, 0, len(seqs))
 	for _, s := range seqs {
 		a := s.Annotations()
@@ -112,13 +156,24 @@ func c13annots(seqs obiseq.BioSequenceSlice) []c13annot {
 		an.Internal = c13toInt(a["obiclean_internalcount"])
 		an.Singleton = c13toInt(a["obiclean_singletoncount"])
 		an.Sample = c13toInt(a["obiclean_samplecount"])
+		if len(getters) > 0 && getters[0] {
+			an.Getters = []int{c13getter(obiclean.HeadCount, s), c13getter(obiclean.InternalCount, s), c13getter(obiclean.SingletonCount, s)}
+		}
 		res = append(res, an)
 	}
 	sort.SliceStable(res, func(i, j int) bool { return res[i].Id < res[j].Id })
 	return res
 }
 
-func c13once(c c13case, path string, workers int) (res c13result) {
+func c13ids(seqs obiseq.BioSequenceSlice) []string {
+	ids := make([]string, 0, len(seqs))
+	for _, s := range seqs {
+		ids = append(ids, s.Id())
+	}
+	return ids
+}
+
+func c13once(c c13case, path string, workers int, arrival ...[]int) (res c13result) {
 	defer func() {
 		if r := recover(); r != nil {
 			res = c13result{Panic: fmt.Sprint(r)}
@@ -129,8 +184,12 @@ func c13once(c c13case, path string, workers int) (res c13result) {
 		g := obiclean.VerifBuildGraph(db, "sample", c.Dist, workers, c.Ratio)
 		return c13result{Graph: g, Annot: c13annots(db)}
 	}
+	if len(arrival) > 0 {
+		out := obiclean.VerifCLIOBICleanIter(c13iter(db, c.Batch, arrival[0]), "sample", c.Dist, workers, c.Ratio, c.Head)
+		return c13result{Annot: c13annots(out, true), order: c13ids(out)}
+	}
 	out := obiclean.VerifCLIOBIClean(db, "sample", c.Dist, workers, c.Ratio, c.Head)
-	return c13result{Annot: c13annots(out)}
+	return c13result{Annot: c13annots(out, true), order: c13ids(out)}
 }
 
 func init() {
@@ -193,6 +252,20 @@ func c13case1(c c13case) c13obs {
 				}
 				obs.Runs = append(obs.Runs, c13run{Path: p, Workers: w, Rep: rep, Result: idx})
 			}
+		}
+	}
+	// the same data set delivered under each batch arrival history (path "cli": the results must all be the same)
+	if c.Cli && c.Batch > 0 {
+		for k, arr := range c.Arrivals {
+			r := c13once(c, "cli", c.Workers[0], arr)
+			b, _ := json.Marshal(r)
+			idx, ok := keys[string(b)]
+			if !ok {
+				idx = len(obs.Distinct)
+				keys[string(b)] = idx
+				obs.Distinct = append(obs.Distinct, r)
+			}
+			obs.Runs = append(obs.Runs, c13run{Path: "cli", Workers: c.Workers[0], Rep: 1000 + k, Result: idx, Order: r.order})
 		}
 	}
 	return obs
